@@ -303,4 +303,28 @@ PROPS = {
         level_note="Per-thread sequential contracts; liveness and cross-thread schedules are not decided.",
         explanation="raises-nothing and slot-accounting contracts on the thread targets.",
     ),
+    "C15": dict(
+        specs=["packer", "avp", "avp_types", "avp_grouped", "base", "node_model", "peer", "helpers", "c20", "family", "node", "c13", "c15"],
+        ground=[ground.c15_lock_coverage], replay=replay.generic,
+        trusted_base=["`with Lock` is mutual exclusion; a single attribute load/store is atomic (S7)",
+                      "socket.send accepts a prefix of 0..len bytes of the buffer it is given, or fails (T-sock)",
+                      "queue.Queue is FIFO (messages are dequeued in queueing order)"],
+        assumptions=COMMON_ASSUME + [
+            "interleavings are covered by lock discipline plus a rely condition, not enumerated: the I/O-loop slice is verified "
+            "under the interference 'the write buffer may grow at its end whenever it is read without write_lock and whenever "
+            "the lock is acquired' (what the writer thread does); the writer is verified with nothing removed by itself",
+            "the slice `for wsock in ready_w` is extracted mechanically from the real AST of Node._handle_connections on every "
+            "run (its `continue` statements end the slice); the rest of the I/O loop is not under contract",
+            "NOT DECIDED: fairness/liveness of the writer; Message.as_bytes for typed classes is used through a behavioural "
+            "contract (returns its encoding or raises)"],
+        level_text="Deductive proof over ghost logs: with T = removed ++ write_buffer, (writer) each writer iteration appends to T "
+                   "exactly the encoding of the one message it dequeued, or leaves T unchanged when encoding raises (the message "
+                   "is dropped alone), and raises nothing; (I/O loop) one send-branch iteration hands the transport exactly the "
+                   "bytes it removes from the front of the buffer - under arbitrary concurrent appends - and T only ever grows "
+                   "at its end (soft failures change nothing); (lock discipline) every write of the buffer is under write_lock "
+                   "and there is one I/O thread. Hence the transport log is always a prefix of the FIFO concatenation of the "
+                   "encodings, each message contiguous and present once.",
+        level_note="Any number of messages, any partial-write pattern, any interleaving respecting the lock (no bound).",
+        explanation="conservation-law contracts with rely/guarantee interference + AST lock coverage.",
+    ),
 }
